@@ -12,7 +12,7 @@ PROPERTY = "C10"
 BUDGET = {"quick": 400, "thorough": 500}
 RULE = ("One case = (grid shape, centre cell, radius); for it all 2 neighbourhood kinds x incl_center x ret_type "
         "{int,tuple} x centre representation {cell id, tuple, PositionComponent exact, PositionComponent with fractional "
-        "in-cell offsets, a PositionComponent object re-used after moving from another cell} x entry point {specific method, get_neighbours(mode=)} are queried (80 calls) and compared with a "
+        "in-cell offsets, a PositionComponent object re-used after moving from another cell, a namedtuple, an IntEnum id, a PositionComponent subclass} x entry point {specific method, get_neighbours(mode=)} are queried (128 calls) and compared with a "
         "brute-force scan of all cells by Chebyshev/Manhattan distance in ascending cell order; the id form must be "
         "the row indices of the same cells in the world's position table. Also unknown mode -> KeyError, unknown "
         "ret_type / centre type -> TypeError. Non-trivial: ball clipped by a border, or radius >= 2, or non-cubic shape. "
@@ -21,6 +21,16 @@ EXHAUSTIVE_DOMAIN = ("shapes {0..3}^3 (thorough {0..4}^3) as DiscreteWorld plus 
                      "centre cell x radius 0..max extent+2")
 ASSUMPTIONS = ["non-wrapping grid worlds only (the property's scope)", "radius is a non-negative int",
                "the world's position table is the reference for cell ids (its consistency with the id formula is C09)"]
+
+import collections
+import enum
+
+Point = collections.namedtuple("Point", "x y z")
+
+
+class VelocityLike(PositionComponent):
+    """a user subclass of PositionComponent"""
+
 
 _worlds = {}
 
@@ -67,6 +77,9 @@ def run_case(case):
     prev = ((cx + 1) % ew, (cy + 1) % eh, (cz + 1) % ed)
     moving = PositionComponent(None, model, *prev)
     reprs["moved"] = moving
+    reprs["namedtuple"] = Point(cx, cy, cz)                                   # a tuple subclass
+    reprs["intenum"] = enum.IntEnum("Cell", {"HERE": index[centre]}).HERE     # an int subclass
+    reprs["pos-subclass"] = VelocityLike(None, model, cx, cy, cz)
     clipped = False
     for mode in ("moore", "neumann"):
         if mode == "moore":
